@@ -129,7 +129,7 @@ func ruleR11(c *Ctx) {
 			}
 		}
 	}
-	c.r.floor("R11", 4, "worklist loops", "C03")
+	c.r.floor("R11", 2, "worklist loops", "C03")
 }
 
 // R13 LEAFFILTER – every yield of a filtered scan is dominated by the leaf-level test.
@@ -403,7 +403,7 @@ func ruleR13(c *Ctx) {
 			})
 		}
 	}
-	c.r.floor("R13", 8, "leaf-level filters", "C03")
+	c.r.floor("R13", 5, "leaf-level filters", "C03")
 }
 
 // defCallOf: v is defined by `…, v := call(...)` (any position).
